@@ -149,6 +149,8 @@ impl CountVectorizerParams {
             }
             Tokenizer::Regex(regex_str) => {
                 self.0.split_regex_expr = regex_str.to_string();
+                // the regex replaces a function tokenizer set earlier (the function has precedence when present)
+                self.0.tokenizer_function = None;
                 self.0.tokenizer_deserialization_guard = false;
             }
         }
